@@ -25,6 +25,7 @@ def run(tier):
                            'requests) re-delivered at random later points under 8 schedule policies and both schedulers; non-trivial = '
                            'distinct runs in which at least one duplicate was actually delivered',
                            _nontrivial, strict=True,
+                           model_behaviours=lambda d: ec.model_jobs(d, tier, sims=[(None, 2 if tier == 'quick' else 8, 0, 2, ())]),
                            model_runs=lambda d: c06_executor.model_and_replay(d, tier) + ec.catalogue_model_runs(d, tier, dups=2, tag='_d2'))
 
 
